@@ -17,20 +17,39 @@ TRUSTED = [
 ]
 ASSUMPTIONS = [
     "short/long-form print-and-reparse and the validation verdict are checked on the implementation only (testing)",
+    "tag identification against the schema inside the constructor (HedTag.__init__ -> schema lookups) is not modelled: "
+    "the model takes no schema, so 'the tree is the same under every schema configuration' is what the correspondence "
+    "run checks (5 configurations: plain, namespaced, schema group with a prefixed library, pre-8.3, library schema) "
+    "and 'never raises' for that part is tested over each schema's own vocabulary in every tag position and in "
+    "case-fold-equivalent spellings (testing)",
     "C02_spec_bounded is exhaustive for |s|<=7 over {a,' ',',','(',')','/'}; unbounded theorems: totality, tiling, "
     "soundness of the count check",
 ]
 
 SIGMA6 = "a ,()/"
-_schema = None
+_schemas = {}
+# schema configurations an annotation is constructed under: the parse tree must not depend on them
+CONFIGS = ["8.3.0", "ts:8.3.0", "8.3.0+sc:score_2.0.0", "8.1.0", "testlib_2.0.0"]
+PREFIX = {0: "", 1: "ts:", 2: "sc:", 3: "", 4: ""}
 
 
-def schema():
-    global _schema
-    if _schema is None:
+def schema(cfg=0):
+    if cfg not in _schemas:
         from hed.schema import load_schema
-        _schema = load_schema(os.path.join(C.REPO, "hed/schema/schema_data/HED8.3.0.xml"))
-    return _schema
+        from hed.schema.hed_schema_group import HedSchemaGroup
+        d = os.path.join(C.REPO, "hed/schema/schema_data")
+        if cfg == 0:
+            _schemas[cfg] = load_schema(os.path.join(d, "HED8.3.0.xml"))
+        elif cfg == 1:
+            _schemas[cfg] = load_schema(os.path.join(d, "HED8.3.0.xml"), schema_namespace="ts:")
+        elif cfg == 2:
+            _schemas[cfg] = HedSchemaGroup([load_schema(os.path.join(d, "HED8.3.0.xml")),
+                                            load_schema(os.path.join(d, "HED_score_2.0.0.xml"), schema_namespace="sc:")])
+        elif cfg == 3:
+            _schemas[cfg] = load_schema(os.path.join(d, "HED8.1.0.xml"))
+        else:
+            _schemas[cfg] = load_schema(os.path.join(d, "HED_testlib_2.0.0.xml"))
+    return _schemas[cfg]
 
 
 # ---------------------------------------------------------------- implementation side
@@ -57,13 +76,15 @@ def shape_of(children, attr):
     return out
 
 
-def impl_one(s):
-    """Observable behaviour of the implementation on text s."""
+def impl_one(case):
+    """Observable behaviour of the implementation on text s under schema configuration cfg."""
     from hed.models.hed_string import HedString
     from hed.validator.util.string_util import StringValidator
-    r = {"s": s}
+    cfg, s = case if isinstance(case, tuple) else (0, case)
+    _sch = schema(cfg)
+    r = {"s": s, "cfg": cfg}
     try:
-        hs = HedString(s, schema())
+        hs = HedString(s, _sch)
     except Exception as e:  # noqa
         r["exn"] = type(e).__name__
         return r
@@ -77,7 +98,7 @@ def impl_one(s):
         rt = {}
         for form, attr in (("str", "short_tag"), ("org", "org_tag"), ("short", "short_tag"), ("long", "long_tag")):
             txt = str(hs) if form == "str" else hs.get_as_form(attr)
-            hs2 = HedString(txt, schema())
+            hs2 = HedString(txt, _sch)
             # equal tree = same nesting and, tag by tag, the same canonical short AND long form
             rt[form] = (shape_of(hs2.children, "short_tag") == shape_of(hs.children, "short_tag")
                         and shape_of(hs2.children, "long_tag") == shape_of(hs.children, "long_tag"))
@@ -133,7 +154,7 @@ def ref_tree(s):
 def oracle(r, res):
     """Check every clause of the statement on the implementation's output."""
     s = r["s"]
-    case = {"text": s, "codepoints": C.cps(s)}
+    case = {"text": s, "codepoints": C.cps(s), "schema_config": CONFIGS[r.get("cfg", 0)], "cfg": r.get("cfg", 0)}
     if "exn" in r:
         res.report("never-raises", case, r["exn"])
         return
@@ -209,6 +230,92 @@ def gen_wellformed(rng, n):
     return [rng.choice(["", " "]) + g(rng.randint(0, 4)) + rng.choice(["", " "]) for _ in range(n)]
 
 
+# spellings that differ from a schema name only by Unicode case folding / letter case
+FOLD_EQUIV = [("ss", "\u00df"), ("s", "\u017f"), ("fi", "\ufb01"), ("fl", "\ufb02"), ("ff", "\ufb00"), ("st", "\ufb06"),
+              ("k", "\u212a"), ("i", "\u0130"), ("i", "\u0131"), ("e", "\u00e9"), ("a", "\u00c5"), ("n", "\u0149"),
+              ("o", "\u03c3"), ("o", "\u03c2")]
+_vocab = {}
+
+
+def vocab(cfg):
+    """(short names, long names, value-taking short names) of the configuration's schema(s), read from the code."""
+    if cfg not in _vocab:
+        sch = schema(cfg)
+        schs = getattr(sch, "_schemas", None)
+        schs = list(schs.values()) if schs else [sch]
+        short, long_, taking = [], [], []
+        for one in schs:
+            for e in one.tags.all_entries:
+                if e.short_tag_name == "#":
+                    taking.append(e.long_tag_name.split("/")[-2])
+                else:
+                    short.append(e.short_tag_name)
+                    long_.append(e.long_tag_name)
+        _vocab[cfg] = (sorted(set(short)), sorted(set(long_)), sorted(set(taking)))
+    return _vocab[cfg]
+
+
+def respell(rng, name):
+    """A spelling of a schema name: as is, other letter case, or with a case-fold-equivalent / look-alike letter."""
+    x = rng.random()
+    if x < 0.3:
+        return name
+    if x < 0.5:
+        return rng.choice([name.upper(), name.lower(), name.swapcase(), name.capitalize(), name.title()])
+    cands = [(a, b) for a, b in FOLD_EQUIV if a in name.lower()]
+    if not cands:
+        return name + rng.choice(["\u00df", "\u017f", "x", "-1", ""])
+    a, b = rng.choice(cands)
+    low = name.lower()
+    i = low.index(a) if rng.random() < 0.5 else low.rindex(a)
+    out = name[:i] + b + name[i + len(a):]
+    return out if rng.random() < 0.7 else out.upper()
+
+
+def schema_tag(rng, cfg):
+    """One tag text over the schema vocabulary: every position (base, intermediate, extension, value) can carry a
+       schema name in any spelling; prefixes of the configuration are used, omitted or wrong."""
+    short, long_, taking = vocab(cfg)
+    kind = rng.random()
+    name = rng.choice(short)
+    if kind < 0.15:
+        t = respell(rng, name)
+    elif kind < 0.3:
+        full = rng.choice(long_).split("/")
+        k = rng.randint(0, len(full) - 1)
+        t = "/".join(respell(rng, x) if rng.random() < 0.4 else x for x in full[k:])
+    elif kind < 0.65:   # extension terms under an identified tag: new words, schema names, respelled schema names
+        terms = [respell(rng, rng.choice(short)) if rng.random() < 0.7 else rng.choice(["ext", "Myext", "x-1", "\u00e4"])
+                 for _ in range(rng.randint(1, 3))]
+        base = rng.choice(long_).split("/")
+        t = "/".join(base[rng.randint(0, len(base) - 1):] + terms)
+    elif kind < 0.85 and taking:   # value positions
+        val = rng.choice([respell(rng, rng.choice(short)), "3 ms", "1.5", "#", "abc", "Stra\u00dfe", "a/b",
+                          respell(rng, rng.choice(short)) + "/" + respell(rng, rng.choice(short))])
+        t = respell(rng, rng.choice(taking)) + "/" + val
+    else:
+        t = respell(rng, name) + rng.choice(["/", "//x", "/ x", " /x", ""])
+    pre = PREFIX[cfg]
+    y = rng.random()
+    if pre and y < 0.7:
+        t = pre + t
+    elif y < 0.8:
+        t = rng.choice(["ts:", "sc:", "xx:", ":", "a:b:"]) + t
+    return t
+
+
+def gen_schema_vocab(rng, n, cfg):
+    def g(d):
+        items = []
+        for _ in range(rng.randint(1, 3)):
+            if d > 0 and rng.random() < 0.35:
+                items.append("(" + g(d - 1) + ")")
+            else:
+                items.append(schema_tag(rng, cfg))
+        return rng.choice([",", ", "]).join(items)
+    return [(cfg, g(rng.randint(0, 3))) for _ in range(n)]
+
+
 def all_strings(n):
     for k in range(n + 1):
         for t in itertools.product(SIGMA6, repeat=k):
@@ -240,9 +347,17 @@ def run(tier, seed, res, model_ok=True, proof_ok=True):
     else:
         exhaustive = list(all_strings(7)) + rng.sample(list(itertools.islice(all_strings(8), 335923, None)), 300000)
     nrand = 3000 if tier == "quick" else 60000
-    cases = corpus + exhaustive + gen_random(rng, nrand) + gen_wellformed(rng, nrand)
+    corpus += ["Red, (Blue, Event/Pre\u00df)", "Agent/\u017fen\u017fory-event", "Item/De\ufb01nition/x", "Label/Stra\u00dfe"]
+    cases = [(0, s) for s in corpus + exhaustive + gen_random(rng, nrand) + gen_wellformed(rng, nrand)]
+    nvoc = 800 if tier == "quick" else 12000
+    for cfg in range(len(CONFIGS)):
+        cases += gen_schema_vocab(rng, nvoc, cfg)
+        if cfg:
+            cases += [(cfg, s) for s in corpus + gen_wellformed(rng, nvoc // 2) + gen_random(rng, nvoc // 2)]
     if not proof_ok:   # broken proof/tie: widen the search for a concrete failing input
-        cases += gen_random(rng, nrand * 3) + gen_wellformed(rng, nrand * 3)
+        cases += [(0, s) for s in gen_random(rng, nrand * 3) + gen_wellformed(rng, nrand * 3)]
+        for cfg in range(len(CONFIGS)):
+            cases += gen_schema_vocab(rng, nvoc * 3, cfg)
 
     bad_table = check_isspace_table()
     if bad_table:
@@ -259,13 +374,13 @@ def run(tier, seed, res, model_ok=True, proof_ok=True):
     disagreements = 0
     if model_ok:
         exe = C.build_driver("c02")
-        mod = C.run_driver(exe, [C.to_sx(C.cps(s)) for s in cases])
-        for s, r, m in zip(cases, impl, mod):
+        mod = C.run_driver(exe, [C.to_sx(C.cps(s)) for _, s in cases])
+        for (cfg, s), r, m in zip(cases, impl, mod):
             if "exn" in r:
                 continue  # already reported by the oracle
             if m[0] != "ok":
                 disagreements += 1
-                res.violation("correspondence", {"text": s}, f"model={m}", no_input=True)
+                res.violation("correspondence", {"text": s, "cfg": cfg}, f"model={m}", no_input=True)
                 continue
             mt = [[int(x) for x in t] for t in m[1]] if m[1] != "None" else None
 
@@ -289,21 +404,29 @@ def run(tier, seed, res, model_ok=True, proof_ok=True):
                 probe.known_ids = {}
                 oracle(r, probe)
                 if not probe.violations:
-                    res.violation("correspondence", {"text": s, "codepoints": C.cps(s)}, "; ".join(diffs), no_input=True)
+                    res.violation("correspondence", {"text": s, "codepoints": C.cps(s), "cfg": cfg,
+                                                     "schema_config": CONFIGS[cfg]}, "; ".join(diffs), no_input=True)
 
-    distinct = len({s for s in cases if any(c in s for c in ",()")})
+    distinct = len({(cfg, s) for cfg, s in cases if any(c in s for c in ",()")})
+    nonascii = sum(1 for _, s in cases if any(ord(c) > 127 for c in s))
     return {
         "evaluations": len(cases),
         "distinct_nontrivial": distinct,
         "rule": f"corpus + all strings over {{a,blank,',','(',')','/'}} up to length {nmax if tier=='quick' else 7} "
                 f"(+300k of length 8 in thorough) + {nrand} random delimiter/Unicode strings + {nrand} well-formed "
-                "nested annotations over real schema tags; non-trivial = contains at least one delimiter",
-        "samples": [cases[0], cases[len(corpus) + 777], cases[-1], cases[-nrand - 1]],
+                f"nested annotations over real schema tags (schema 8.3.0) + per schema configuration {CONFIGS}: {nvoc} "
+                "nested annotations over the schema's own vocabulary (base / intermediate / extension / value positions, "
+                "names as is, in other letter case or with case-fold-equivalent letters, prefix used / omitted / wrong) "
+                "and, for the non-default configurations, the corpus + well-formed + random streams again; "
+                "non-trivial = contains at least one delimiter",
+        "samples": [cases[0][1], cases[len(corpus) + 777][1], cases[-1][1], cases[-nvoc - 1][1]],
         "exhaustive": False,
         "disagreements_checked": disagreements,
         "correspondence_cases": len(cases) if model_ok else 0,
-        "histogram": {"balanced": sum(1 for s in cases if balanced(s)), "unbalanced": sum(1 for s in cases if not balanced(s)),
-                      "max_len": max(len(s) for s in cases)},
+        "histogram": {"balanced": sum(1 for _, s in cases if balanced(s)),
+                      "unbalanced": sum(1 for _, s in cases if not balanced(s)),
+                      "max_len": max(len(s) for _, s in cases), "non_ascii": nonascii,
+                      "per_config": {CONFIGS[k]: sum(1 for c, _ in cases if c == k) for k in range(len(CONFIGS))}},
     }
 
 
@@ -312,7 +435,7 @@ def replay(payload):
     if s is None:
         print("no concrete input in replay:", payload.get("detail", "")[:500])
         return 1
-    r = impl_one(s)
+    r = impl_one((payload["case"].get("cfg", 0), s))
     res = C.Result(PROP)
     res.known_ids = {}
     oracle(r, res)
